@@ -279,10 +279,42 @@ def run_C01(tier, rng, stats):
                                              'why': '%s build: %s on %r' % (prof, x, dec_expr(c[3]))})
     return res
 
+def s_nested(tier, rng, evs=EVS):
+    """every construct nested in each of its operand positions, at several depths up to the 256-character bound:
+       repeated evaluation of a sub-expression (work exponential in the depth) shows as a step count beyond the budget"""
+    out = []
+    for ev in evs:
+        temps = ['(%s)', '-%s', '+%s', '%s+1', '1+%s', '2*%s', '%s*2', '2^%s', '%s^2', '%s²', '1-%s', '%s-1', '%s/2', '2/%s', '2(%s)', '(%s)(2)']
+        if gen.HAS_FLOORBR[ev]:
+            temps += ['⌊%s⌋', '⌈%s⌉']
+        if gen.HAS_BANG[ev]:
+            temps += ['%s!', '(%s)!']
+        if ev == 'i64':
+            temps += ['%s|1', '1|%s', '%s&3', '3&%s', '%s<<1', '1<<%s', '%s>>1', '%s%%3', '7%%%s']
+        for p in gen.POSTFIX5[ev]:
+            temps.append('%s' + p)
+        for f in gen.F1[ev]:
+            temps.append(f + '(%s)')
+        for f in gen.F2[ev]:
+            temps += [f + '(%s,2)', f + '(2,%s)']
+        for f in gen.FV[ev]:
+            temps += [f + '(%s)', f + '(%s,1)', f + '(1,%s)', f + '(1,2,%s)', f + '(%s,1,2)', f + '(1,%s,2)']
+        for t in temps:
+            unit = len(t) - 2
+            dmax = max(1, (250 - 1) // max(unit, 1))
+            depths = sorted(set([min(d, dmax) for d in ((8, 16, 24, dmax) if tier == 'quick' else (4, 8, 12, 16, 20, 24, 32, 48, dmax))]))
+            for d in depths:
+                e = '1'
+                for _ in range(d):
+                    e = t % e
+                if len(e) <= 256:
+                    out.append(case(ev, 'eval', None, e))
+    return out
+
 def run_C02(tier, rng, stats):
-    cs = s_loops(tier, rng) + s_wf(tier, rng, nq=200, nt=2000) + s_tokseq(tier, rng, qlen=3, tlen=3)
+    cs = s_loops(tier, rng) + s_nested(tier, rng) + s_wf(tier, rng, nq=200, nt=2000) + s_tokseq(tier, rng, qlen=3, tlen=3)
     stats['rule'] = ('every looping construct (!, w, ilog, gcd, lcm) over extreme / non-finite / zero / negative / base-1 operands and placeholders, '
-                     'inputs near 256 chars, random expressions; ticks measured by the cfg-guarded counter, 4 s wall-clock watchdog per case')
+                     'every construct nested in each operand position at depths up to the 256-character bound, inputs near 256 chars, random expressions; ticks measured by the cfg-guarded counter, 4 s wall-clock watchdog per case')
     cases, outs, model = run_streams(cs, stats, profiles=('debug',), budget=10**7)
     res = std_judge('C02', cases, outs, model)
     worst = 0.0
